@@ -602,7 +602,10 @@ class Ctx:
         self.rejected_total = getattr(self, "rejected_total", 0) + len(rejected)
         # binding self-test: a corrupted observation must be rejected
         if mutate is not None:
-            self._selftest(trace_spec, execs, base_cfg, constants, kf, timeout, dfs, mutate)
+            # only executions that were explained strictly (no deviation) are candidates: corrupting an
+            # execution that is itself rejected (a changed tree) could repair it
+            strict = [e for ch, acc in zip(chunks, accs) for xi, e in enumerate(ch) if frozenset() in (acc.get(xi + 1) or ())]
+            self._selftest(trace_spec, strict, base_cfg, constants, kf, timeout, dfs, mutate, had_rejections=bool(rejected))
         return len(rejected)
 
     def judge_advisory(self, trace_spec, trace_path, base_cfg, constants=None, timeout=1800, dfs=False, label="adv"):
@@ -658,32 +661,43 @@ class Ctx:
         self.violations.append(detail)
         log("REJECTED execution %s at event %d: %s" % (h, line, e[line - 1] if 0 < line <= len(e) else "?"))
 
-    def _selftest(self, trace_spec, execs, base_cfg, constants, kf, timeout, dfs, mutate):
-        """mutate(list of event dicts) -> mutated list or None. The first execution for which it
-        returns something is judged; acceptance of the corrupted execution means the trace spec does
-        not bind that observation (infrastructure failure, exit 2)."""
+    def _selftest(self, trace_spec, execs, base_cfg, constants, kf, timeout, dfs, mutate, had_rejections=False):
+        """mutate(list of event dicts) -> mutated list or None. Candidates are executions that the trace
+        spec explained strictly. A corrupted observation must be rejected. Where the statement leaves an
+        observation open (e.g. two overlapping writes: either may be read afterwards) a corruption can be
+        admissible, so up to 6 candidates are tried and the self-test passes with the first corrupted
+        execution that is rejected; it fails (infrastructure, exit 2) only when every tried corruption was
+        accepted - the trace spec then does not bind that observation. With rejected executions in the same
+        run the verdict (exit 1) stands and a failing self-test is only recorded."""
+        tried = 0
         for e in execs:
             evs = [json.loads(x) for x in e]
             m = mutate(evs)
             if m is None:
                 continue
+            tried += 1
             lines = [json.dumps(x, sort_keys=True) for x in m]
             try:
                 acc = self._judge_chunk(trace_spec, [lines], base_cfg, constants, kf, timeout, dfs, "selftest", single=True)
             except Infra as ex:
                 # TLC could not even evaluate the corrupted execution (e.g. a field of the wrong shape):
                 # it is certainly not accepted
-                self.selftests.append({"spec": trace_spec, "rejected_corrupted_execution": True,
+                self.selftests.append({"spec": trace_spec, "rejected_corrupted_execution": True, "candidates_tried": tried,
                                        "note": "TLC evaluation error on the corrupted execution: " + str(ex)[:200]})
                 return
-            ok = not acc.get(1)
-            self.selftests.append({"spec": trace_spec, "rejected_corrupted_execution": ok,
-                                   "at_event": self.last_highwater})
-            if not ok:
-                raise Infra("binding self-test failed: %s accepted a corrupted execution" % trace_spec)
+            if not acc.get(1):
+                self.selftests.append({"spec": trace_spec, "rejected_corrupted_execution": True, "candidates_tried": tried,
+                                       "at_event": self.last_highwater})
+                return
+            if tried >= 6:
+                break
+        if tried == 0:
+            self.selftests.append({"spec": trace_spec, "rejected_corrupted_execution": None,
+                                   "note": "no execution suitable for corruption"})
             return
-        self.selftests.append({"spec": trace_spec, "rejected_corrupted_execution": None,
-                               "note": "no execution suitable for corruption"})
+        self.selftests.append({"spec": trace_spec, "rejected_corrupted_execution": False, "candidates_tried": tried})
+        if not had_rejections and tried >= 3:
+            raise Infra("binding self-test failed: %s accepted %d corrupted executions" % (trace_spec, tried))
 
     # ---------------------------------------------------------------- finish
     def finish(self, level="model_checking"):
